@@ -114,7 +114,8 @@ class NpCalls:
             elif name.startswith('ones'):
                 fill = const(1)
             if fill is not None:
-                out = out.w(fill=fill, idx=fill.idx, mono=mono_of(fill) if name.startswith('ones') else None)
+                out = out.w(fill=fill, idx=fill.idx, mono=mono_of(fill) if name.startswith(('ones', 'full')) else None,
+                            geo=fill.geo if name.startswith('full') else None, mono_unknown=fill.mono_unknown if name.startswith('full') else None)
                 if fill.idx is not None:
                     out = out.w(idx=fill.idx)
             dt = kwargs.get('dtype')
